@@ -108,6 +108,7 @@ type histM struct {
 	Base uint64 `json:"base"`
 	From uint64 `json:"from"`
 	To   uint64 `json:"to"`
+	Deep bool   `json:"deep,omitempty"`
 	Note string `json:"note"`
 }
 
@@ -186,6 +187,7 @@ type lineM struct {
 // failure is one non-ok run as the orchestrator sees it.
 type failure struct {
 	ProcFrom uint64 // first run index of the worker process in which it failed
+	Deep     bool
 	I       uint64
 	Seed    uint64
 	Profile string
@@ -455,7 +457,12 @@ func (x *c17) sweep(a *agg, deadline time.Time, workers int, chunk uint64, maxRu
 				}
 				to := from + chunk
 				for from < to {
-					po := x.spawn(1, 120*time.Second, "-base", fmt.Sprint(x.e.seed), "-from", fmt.Sprint(from), "-to", fmt.Sprint(to), "-profile", "mixed")
+					args := []string{"-base", fmt.Sprint(x.e.seed), "-from", fmt.Sprint(from), "-to", fmt.Sprint(to), "-profile", "mixed"}
+					deep := x.e.tier == "thorough" && (to/chunk)%2 == 0
+					if deep {
+						args = append(args, "-deep")
+					}
+					po := x.spawn(1, 240*time.Second, args...)
 					last := from
 					for i := range po.lines {
 						l := &po.lines[i]
@@ -478,6 +485,7 @@ func (x *c17) sweep(a *agg, deadline time.Time, workers int, chunk uint64, maxRu
 					}
 					if f != nil {
 						f.ProcFrom = from
+						f.Deep = deep
 						a.mu.Lock()
 						a.failures = append(a.failures, f)
 						nf := len(a.failures)
@@ -946,7 +954,11 @@ func mainC17(e *env) {
 			trouble(e, "%s", tr)
 		}
 		if f == nil && hist != nil {
-			po := x.spawn(1, 240*time.Second, "-base", fmt.Sprint(hist.Base), "-from", fmt.Sprint(hist.From), "-to", fmt.Sprint(hist.To), "-profile", "mixed")
+			hargs := []string{"-base", fmt.Sprint(hist.Base), "-from", fmt.Sprint(hist.From), "-to", fmt.Sprint(hist.To), "-profile", "mixed"}
+			if hist.Deep {
+				hargs = append(hargs, "-deep")
+			}
+			po := x.spawn(1, 240*time.Second, hargs...)
 			hf, htr := failureOf(po)
 			if htr != "" {
 				trouble(e, "%s", htr)
@@ -1047,7 +1059,11 @@ func mainC17(e *env) {
 		if cf == nil || cf.Verdict != f.Verdict {
 			// Re-execute the worker process it failed in (same first run index):
 			// a race report can depend on what the process did before the run.
-			po := x.spawn(1, 240*time.Second, "-base", fmt.Sprint(x.e.seed), "-from", fmt.Sprint(f.ProcFrom), "-to", fmt.Sprint(f.I+1), "-profile", "mixed")
+			hargs := []string{"-base", fmt.Sprint(x.e.seed), "-from", fmt.Sprint(f.ProcFrom), "-to", fmt.Sprint(f.I + 1), "-profile", "mixed"}
+			if f.Deep {
+				hargs = append(hargs, "-deep")
+			}
+			po := x.spawn(1, 240*time.Second, hargs...)
 			hf, _ := failureOf(po)
 			if hf == nil || hf.I != f.I || hf.Verdict != f.Verdict {
 				trouble(e, "run %d (seed %d) failed with %s in the sweep but neither alone in a fresh process nor when its worker process (runs %d..%d) is re-executed: nondeterministic", f.I, f.Seed, f.Verdict, f.ProcFrom, f.I)
@@ -1060,7 +1076,7 @@ func mainC17(e *env) {
 			reported[sig0] = true
 			violations++
 			c := hf.Case.clone()
-			c.History = &histM{Base: x.e.seed, From: f.ProcFrom, To: f.I + 1, Note: "this failure reproduces only after the earlier runs of its worker process; the replay command re-executes that range"}
+			c.History = &histM{Base: x.e.seed, From: f.ProcFrom, To: f.I + 1, Deep: f.Deep, Note: "this failure reproduces only after the earlier runs of its worker process; the replay command re-executes that range"}
 			p := x.writeReplay(c, hf, fmt.Sprintf("C17-%s-%d.json", hf.Verdict, f.Seed))
 			fmt.Printf("violation (not minimised: reproduces only with its worker process's history, runs %d..%d of batch seed %d):\n%s", f.ProcFrom, f.I, x.e.seed, describe(hf))
 			fmt.Printf("VIOLATION property=C17 replay=%s\n", p)
